@@ -9,6 +9,12 @@ from .analysis import Analysis
 from .build import build_program, eval_validator, mask
 
 
+def _pos_excl(s1, s2):
+    from .analysis import pos_exclusive
+
+    return pos_exclusive(s1.mod, s1.pos, s2.mod, s2.pos)
+
+
 class CoreScenario(Scenario):
     """cfg: {"prog": program, "sched": ..., "cycles": n, "plan": [...], "checks": [...]}"""
 
@@ -18,6 +24,8 @@ class CoreScenario(Scenario):
         self.a = Analysis(self.prog)
         self.checks = set(cfg.get("checks", []))
         self.check_netlist = "C10" in self.checks
+        # acceptance of well-formed designs is C11's claim (and C10's, whose statement says "elaborates")
+        self.elab_failure_is_violation = bool(self.checks & {"C10", "C11"})
         self.fsm_state = {fid: 0 for fid in self.a.fsms}
         self.sync_expect = {}
         self.structs = self.a.structs()
@@ -61,10 +69,45 @@ class CoreScenario(Scenario):
                 o[f"{fid}.{nm}"] = fsm.ongoing(nm)
         for bid, sig in b.branch.items():
             o[f"{bid}.bw"] = sig
+        self.shape_counters()
         # every body of the program must have been built (a harness bug otherwise)
         for bid, body in self.a.bodies.items():
             if body.branch_of is None and bid not in b.trans and bid not in b.methods:
                 raise RuntimeError(f"body {bid} was not built")
+
+    def shape_counters(self):
+        """Static reach probes: which of the shapes the properties name does this program contain."""
+        a = self.a
+        if any(b.parent is not None and b.branch_of is None for b in a.bodies.values()):
+            self.hit("design_with_nested_body")
+        nodes = [b.node for b in a.bodies.values() if b.kind == "T"] + list(a.mdefs.values())
+        if any(n.get("rdy_run") for n in nodes):
+            self.hit("design_with_forwarder_style_readiness")
+        rels = self.prog.get("relations", [])
+        if any(r["kind"] == "before" and r.get("rdep") for r in rels):
+            self.hit("design_with_ready_dependent_schedule_before")
+        if any(r["kind"] == "before" for r in rels):
+            self.hit("design_with_schedule_before")
+        if a.alias:
+            self.hit("design_with_aliases")
+        if any(md.get("single") for md in a.mdefs.values()):
+            self.hit("design_with_single_caller_method")
+        for mid, md in a.mdefs.items():
+            ss = self.sites_of(mid)
+            if not md.get("nonex"):
+                for i, s1 in enumerate(ss):
+                    for s2 in ss[i + 1:]:
+                        if s1.body == s2.body:
+                            self.hit("design_exclusive_method_called_in_several_alternatives")
+            else:
+                for i, s1 in enumerate(ss):
+                    for s2 in ss[i + 1:]:
+                        if s1.body == s2.body and not _pos_excl(s1, s2):
+                            self.hit("design_nonexclusive_method_called_repeatedly_on_one_path")
+        if "AMB" in (self.rel or {}).values():
+            self.hit("design_with_ambiguous_pair")
+        if any(b.pos and b.pos[0][0][0] in ("if", "sw", "fsm") for b in a.bodies.values()):
+            self.hit("design_with_bodies_inside_alternatives")
 
     # ---- stimulus ---------------------------------------------------------------------------
     def _validator_hits(self):
